@@ -679,7 +679,11 @@ impl Objective {
 
 impl fmt::Display for Objective {
     fn fmt(&self, f: &mut fmt::Formatter<'_>) -> fmt::Result {
-        write!(f, "{} {}", self.objective_type, self.rhs)
+        match self.objective_type {
+            // `solve` takes no objective expression in the language
+            OptimizationType::Satisfy => write!(f, "{}", self.objective_type),
+            _ => write!(f, "{} {}", self.objective_type, self.rhs),
+        }
     }
 }
 
